@@ -185,6 +185,9 @@ class _EpydocReader(StandaloneReader):
         is_fatal = level >= Reporter.ERROR_LEVEL
 
         linenum: Optional[int] = error.get('line')
+        if linenum:
+            # docutils counts lines from 1, ParseError from 0.
+            linenum -= 1
 
         msg = ''.join(c.astext() for c in error)
 
